@@ -22,8 +22,10 @@ def held : Client → List Item
 def arrived (cfg : Cfg) (s : Sys) (extra : Bytes) : List Bytes :=
   delivered s.done ++ dataOf cfg (held s.client ++ (s.queue ++ items (parseAll hsfzCutter (s.buf ++ extra)).1))
 
-/-- a blocked read holds no frame it could have delivered -/
-def WF (cfg : Cfg) (s : Sys) : Prop := ∀ sk c, s.client = .reading sk c → dataOf cfg sk = []
+/-- a blocked read holds no frame it could have delivered, and neither do the frames a read has put back behind the
+    end-of-stream marker -/
+def WF (cfg : Cfg) (s : Sys) : Prop :=
+  (∀ sk c, s.client = .reading sk c → dataOf cfg sk = []) ∧ dataOf cfg s.behind = []
 
 /-- bytes an operation adds to the stream -/
 def Op.chunk : Op → Bytes
@@ -34,12 +36,12 @@ def fedBytes (ops : List Op) : Bytes := (ops.map Op.chunk).flatten
 
 variable (cfg : Cfg)
 
-theorem WF_idle (s : Sys) (h : s.client = .idle) : WF cfg s := by
-  intro sk c h2; rw [h] at h2; cases h2
+theorem WF_idle (s : Sys) (h : s.client = .idle) (hb : dataOf cfg s.behind = []) : WF cfg s :=
+  ⟨(by intro sk c h2; rw [h] at h2; cases h2), hb⟩
 
 theorem WF_ack (s : Sys) {p : Bytes} {sk0 : List Item} {a : Nat} {c0 : Option Nat}
-    (h : s.client = .ackWait p sk0 a c0) : WF cfg s := by
-  intro sk c h2; rw [h] at h2; cases h2
+    (h : s.client = .ackWait p sk0 a c0) (hb : dataOf cfg s.behind = []) : WF cfg s :=
+  ⟨(by intro sk c h2; rw [h] at h2; cases h2), hb⟩
 
 @[simp] theorem dataOf_nil : dataOf cfg [] = [] := rfl
 
@@ -81,22 +83,33 @@ theorem delivered_other (t : Nat) (r : Res) (h : ∀ d, r ≠ .data d) : deliver
 
 /-! ### the consumer's run -/
 
+theorem clientRun_behind_of_not_read (s : Sys) (h : ∀ sk c, s.client ≠ .reading sk c) :
+    (clientRun cfg s).behind = s.behind := by
+  unfold clientRun Sys.finish
+  split
+  · rfl
+  · split <;> rfl
+  · rename_i sk c hc; exact absurd hc (h sk c)
+
 theorem clientRun_arrived (s : Sys) (hwf : WF cfg s) :
     WF cfg (clientRun cfg s) ∧ ∀ extra, arrived cfg (clientRun cfg s) extra = arrived cfg s extra := by
+  obtain ⟨hwf1, hwb⟩ := hwf
   cases hcl : s.client with
-  | idle => rw [clientRun_idle cfg s hcl]; exact ⟨hwf, fun _ => rfl⟩
+  | idle => rw [clientRun_idle cfg s hcl]; exact ⟨⟨hwf1, hwb⟩, fun _ => rfl⟩
   | ackWait prev sk a c =>
+    have hb : (clientRun cfg s).behind = s.behind :=
+      clientRun_behind_of_not_read cfg s (by intro sk2 c2 h; rw [hcl] at h; cases h)
     cases hs : scan (ackMatches cfg prev) sk s.queue with
     | more sk' =>
       obtain ⟨e, _⟩ := scan_more_inv hs
       rw [clientRun_ack_more cfg hcl hs]
-      refine ⟨WF_ack cfg _ rfl, fun extra => ?_⟩
+      refine ⟨WF_ack cfg _ rfl hwb, fun extra => ?_⟩
       subst e
       simp [arrived, held, hcl, List.append_assoc]
     | hit x rest sk' =>
       obtain ⟨pre, e, e2, _, _, hm⟩ := scan_hit_inv hs
       rw [clientRun_ack_hit cfg hcl hs]
-      refine ⟨WF_idle cfg _ rfl, fun extra => ?_⟩
+      refine ⟨WF_idle cfg _ rfl hwb, fun extra => ?_⟩
       subst e2
       simp only [arrived, Sys.finish, held, hcl, e, delivered_append,
         delivered_other _ (Res.wrote prev.length) (by intro d h; cases h), List.append_nil, List.nil_append,
@@ -105,20 +118,20 @@ theorem clientRun_arrived (s : Sys) (hwf : WF cfg s) :
     | err cw rest sk' =>
       obtain ⟨pre, e, e2, _⟩ := scan_err_inv hs
       rw [clientRun_ack_err cfg hcl hs]
-      refine ⟨WF_idle cfg _ rfl, fun extra => ?_⟩
+      refine ⟨WF_idle cfg _ rfl hwb, fun extra => ?_⟩
       subst e2
       simp only [arrived, Sys.finish, held, hcl, e, delivered_append,
         delivered_other _ (Res.errWord cw) (by intro d h; cases h), List.append_nil, List.nil_append,
         List.append_assoc, dataOf_append]
       rw [dataOf_cons cfg (.word cw), dataOf_word]; simp
   | reading sk c =>
-    have hsk : dataOf cfg sk = [] := hwf sk c hcl
+    have hsk : dataOf cfg sk = [] := hwf1 sk c hcl
     cases hs : scan (dataMatches cfg) sk s.queue with
     | more sk' =>
       obtain ⟨e, hc⟩ := scan_more_inv hs
       rw [clientRun_read_more cfg hcl hs]
       subst e
-      refine ⟨?_, fun extra => ?_⟩
+      refine ⟨⟨?_, hwb⟩, fun extra => ?_⟩
       · intro sk2 c2 h
         simp only [Client.reading.injEq] at h
         rw [← h.1, dataOf_append, hsk, dataOf_clean cfg _ hc]; rfl
@@ -126,15 +139,23 @@ theorem clientRun_arrived (s : Sys) (hwf : WF cfg s) :
     | hit x rest sk' =>
       obtain ⟨pre, e, e2, hc, _, hm⟩ := scan_hit_inv hs
       rw [clientRun_read_hit cfg hcl hs]
-      refine ⟨WF_idle cfg _ rfl, fun extra => ?_⟩
       subst e2
-      simp only [arrived, Sys.finish, held, hcl, e, delivered_append, delivered_data, List.nil_append,
-        List.append_assoc, dataOf_append, hsk, dataOf_clean cfg _ hc]
-      rw [dataOf_cons cfg x, dataOf_match cfg x hm]; simp
+      have hskp : dataOf cfg (sk ++ pre) = [] := by rw [dataOf_append, hsk, dataOf_clean cfg _ hc]; rfl
+      refine ⟨WF_idle cfg _ rfl ?_, fun extra => ?_⟩
+      · show dataOf cfg (if s.eof then s.behind ++ (sk ++ pre) else s.behind) = []
+        split
+        · rw [dataOf_append, hwb, hskp]; rfl
+        · exact hwb
+      · simp only [arrived, Sys.finish, held, hcl, e, delivered_append, delivered_data, List.nil_append,
+          List.append_assoc, dataOf_append, hsk, dataOf_clean cfg _ hc]
+        rw [dataOf_cons cfg x, dataOf_match cfg x hm]
+        split
+        · simp
+        · simp [dataOf_append, hskp]
     | err cw rest sk' =>
       obtain ⟨pre, e, e2, hc⟩ := scan_err_inv hs
       rw [clientRun_read_err cfg hcl hs]
-      refine ⟨WF_idle cfg _ rfl, fun extra => ?_⟩
+      refine ⟨WF_idle cfg _ rfl hwb, fun extra => ?_⟩
       simp only [arrived, Sys.finish, held, hcl, e, delivered_append,
         delivered_other _ (Res.errWord cw) (by intro d h; cases h), List.append_nil, List.nil_append,
         List.append_assoc, dataOf_append, hsk, dataOf_clean cfg _ hc]
@@ -150,9 +171,13 @@ theorem deliver_arrived (s : Sys) {w : Wire} {rest : Bytes} (hc : cutWire s.buf 
   rw [parseAll_some hsfzCutter hm]
   simp only [deliver_done, deliver_client, deliver_queue, deliver_buf', items_cons, List.append_assoc]
 
+theorem deliver_behind (s : Sys) (w : Wire) : (deliver cfg s w).behind = s.behind := by
+  unfold deliver; split <;> rfl
+
 theorem deliver_WF (s : Sys) (w : Wire) (rest : Bytes) (h : WF cfg s) : WF cfg (deliver cfg { s with buf := rest } w) := by
+  refine ⟨?_, by rw [deliver_behind]; exact h.2⟩
   intro sk c hcl
-  exact h sk c (by simpa using hcl)
+  exact h.1 sk c (by simpa using hcl)
 
 /-! ### the schedule -/
 
@@ -185,65 +210,66 @@ theorem settle_arrived (yields : Wire → Bool) (s : Sys) (hwf : WF cfg s) :
 
 theorem fire_arrived (s : Sys) (target : Nat) (hwf : WF cfg s) :
     WF cfg (fire s target) ∧ ∀ extra, arrived cfg (fire s target) extra = arrived cfg s extra := by
+  obtain ⟨hwf1, hwb⟩ := hwf
+  have wfIdle : ∀ t : Sys, t.client = .idle → t.behind = s.behind → WF cfg t := by
+    intro t ht hb; exact WF_idle cfg t ht (by rw [hb]; exact hwb)
   cases hcl : s.client with
   | idle =>
     have : fire s target = s := by simp [fire, hcl]
-    rw [this]; exact ⟨hwf, fun _ => rfl⟩
+    rw [this]; exact ⟨⟨hwf1, hwb⟩, fun _ => rfl⟩
   | ackWait prev sk a c =>
-    have wfIdle : ∀ t : Sys, t.client = .idle → WF cfg t := by intro t ht sk2 c2 h; rw [ht] at h; cases h
     have tmo : delivered [(a, Res.noAck)] = [] := rfl
     cases c with
     | none =>
       simp only [fire, hcl]
       split
-      · refine ⟨wfIdle _ rfl, fun extra => ?_⟩
+      · refine ⟨wfIdle _ rfl rfl, fun extra => ?_⟩
         simp [arrived, Sys.finish, held, hcl, delivered_append, tmo, List.append_assoc]
-      · exact ⟨hwf, fun _ => rfl⟩
+      · exact ⟨⟨hwf1, hwb⟩, fun _ => rfl⟩
     | some ct =>
       simp only [fire, hcl]
       split
-      · refine ⟨wfIdle _ rfl, fun extra => ?_⟩
+      · refine ⟨wfIdle _ rfl rfl, fun extra => ?_⟩
         have : delivered [(ct, Res.timeout)] = [] := rfl
         simp [arrived, Sys.finish, held, hcl, delivered_append, this, List.append_assoc]
       · split
-        · refine ⟨wfIdle _ rfl, fun extra => ?_⟩
+        · refine ⟨wfIdle _ rfl rfl, fun extra => ?_⟩
           simp [arrived, Sys.finish, held, hcl, delivered_append, tmo, List.append_assoc]
-        · exact ⟨hwf, fun _ => rfl⟩
+        · exact ⟨⟨hwf1, hwb⟩, fun _ => rfl⟩
   | reading sk c =>
-    have hsk : dataOf cfg sk = [] := hwf sk c hcl
-    have wfIdle : ∀ t : Sys, t.client = .idle → WF cfg t := by intro t ht sk2 c2 h; rw [ht] at h; cases h
+    have hsk : dataOf cfg sk = [] := hwf1 sk c hcl
     cases c with
     | none =>
       have : fire s target = s := by simp [fire, hcl]
-      rw [this]; exact ⟨hwf, fun _ => rfl⟩
+      rw [this]; exact ⟨⟨hwf1, hwb⟩, fun _ => rfl⟩
     | some ct =>
       simp only [fire, hcl]
       split
-      · refine ⟨wfIdle _ rfl, fun extra => ?_⟩
+      · refine ⟨wfIdle _ rfl rfl, fun extra => ?_⟩
         have : delivered [(ct, Res.timeout)] = [] := rfl
         simp [arrived, Sys.finish, held, hcl, delivered_append, this, dataOf_append, hsk]
-      · exact ⟨hwf, fun _ => rfl⟩
+      · exact ⟨⟨hwf1, hwb⟩, fun _ => rfl⟩
 
 /-! ### end of stream -/
 
 theorem wake_arrived (s : Sys) (hwf : WF cfg s) :
     WF cfg (wake s) ∧ ∀ extra, arrived cfg (wake s) extra = arrived cfg s extra := by
-  have wfIdle : ∀ t : Sys, t.client = .idle → WF cfg t := by intro t ht sk2 c2 h; rw [ht] at h; cases h
+  obtain ⟨hwf1, hwb⟩ := hwf
   have pc : ∀ t : Nat, delivered [(t, Res.peerClosed)] = [] := fun _ => rfl
   unfold wake
   split
   · cases hcl : s.client with
-    | idle => simp only; exact ⟨fun sk c h => hwf sk c (by rw [hcl] at h ⊢; exact h), fun _ => trivial⟩
+    | idle => simp only; exact ⟨⟨fun sk c h => hwf1 sk c (by rw [hcl] at h ⊢; exact h), hwb⟩, fun _ => trivial⟩
     | ackWait prev sk a c =>
       simp only
-      refine ⟨wfIdle _ rfl, fun extra => ?_⟩
-      simp [arrived, Sys.finish, held, hcl, delivered_append, pc, List.append_assoc]
+      refine ⟨WF_idle cfg _ rfl rfl, fun extra => ?_⟩
+      simp [arrived, Sys.finish, held, hcl, delivered_append, pc, List.append_assoc, dataOf_append, hwb]
     | reading sk c =>
-      have hsk : dataOf cfg sk = [] := hwf sk c hcl
+      have hsk : dataOf cfg sk = [] := hwf1 sk c hcl
       simp only
-      refine ⟨wfIdle _ rfl, fun extra => ?_⟩
-      simp [arrived, Sys.finish, held, hcl, delivered_append, pc, dataOf_append, hsk]
-  · exact ⟨hwf, fun _ => rfl⟩
+      refine ⟨WF_idle cfg _ rfl rfl, fun extra => ?_⟩
+      simp [arrived, Sys.finish, held, hcl, delivered_append, pc, dataOf_append, hsk, hwb]
+  · exact ⟨⟨hwf1, hwb⟩, fun _ => rfl⟩
 
 /-! ### operations and executions -/
 
@@ -257,11 +283,11 @@ theorem execOp_arrived (yields : Wire → Bool) (s : Sys) (op : Op) (hwf : WF cf
       WF cfg { s with done := s.done ++ [(s.now, r)] } ∧
       ∀ extra, arrived cfg { s with done := s.done ++ [(s.now, r)] } extra = arrived cfg s extra := by
     intro r hr
-    refine ⟨fun sk c h => hwf sk c h, fun extra => ?_⟩
+    refine ⟨⟨fun sk c h => hwf.1 sk c h, hwf.2⟩, fun extra => ?_⟩
     simp [arrived, delivered_append, delivered_other _ r hr]
   cases op with
   | feed chunk =>
-    have hwf0 : WF cfg { s with buf := s.buf ++ chunk } := fun sk c h => hwf sk c h
+    have hwf0 : WF cfg { s with buf := s.buf ++ chunk } := ⟨fun sk c h => hwf.1 sk c h, hwf.2⟩
     obtain ⟨h1, h2⟩ := settle_arrived cfg yields { s with buf := s.buf ++ chunk } hwf0
     refine ⟨h1, fun extra => ?_⟩
     simp only [execOp]
@@ -274,7 +300,7 @@ theorem execOp_arrived (yields : Wire → Bool) (s : Sys) (op : Op) (hwf : WF cf
       have hidle : s.client = .idle := isIdle_eq (by simpa using hi)
       split
       · exact keepDone _ (by intro d h; cases h)
-      · obtain ⟨h1, h2⟩ := clientRun_arrived cfg { s with out := s.out ++ [(s.now, requestBytes cfg data)], client := .ackWait data [] (s.now + cfg.ackTimeout) (t.map (s.now + ·)) } (WF_ack cfg _ rfl)
+      · obtain ⟨h1, h2⟩ := clientRun_arrived cfg { s with out := s.out ++ [(s.now, requestBytes cfg data)], client := .ackWait data [] (s.now + cfg.ackTimeout) (t.map (s.now + ·)) } (WF_ack cfg _ rfl hwf.2)
         obtain ⟨h1w, h2w⟩ := wake_arrived cfg _ h1
         refine ⟨h1w, fun extra => ?_⟩
         rw [h2w, h2]; simp [arrived, held, hidle]
@@ -287,6 +313,7 @@ theorem execOp_arrived (yields : Wire → Bool) (s : Sys) (op : Op) (hwf : WF cf
       split
       · exact keepDone _ (by intro d h; cases h)
       · have hwf0 : WF cfg { s with client := .reading [] (t.map (s.now + ·)) } := by
+          refine ⟨?_, hwf.2⟩
           intro sk c h
           simp only [Client.reading.injEq] at h
           rw [← h.1]; rfl
@@ -297,10 +324,10 @@ theorem execOp_arrived (yields : Wire → Bool) (s : Sys) (op : Op) (hwf : WF cf
   | advance dt =>
     obtain ⟨h1, h2⟩ := fire_arrived cfg s (s.now + dt) hwf
     simp only [execOp, Op.chunk, List.nil_append]
-    exact ⟨fun sk c h => h1 sk c h, fun extra => by rw [← h2]; rfl⟩
+    exact ⟨⟨fun sk c h => h1.1 sk c h, h1.2⟩, fun extra => by rw [← h2]; rfl⟩
   | eof =>
     simp only [execOp, Op.chunk, List.nil_append]
-    have hwf0 : WF cfg { s with eof := true } := fun sk c h => hwf sk c h
+    have hwf0 : WF cfg { s with eof := true } := ⟨fun sk c h => hwf.1 sk c h, hwf.2⟩
     obtain ⟨h1w, h2w⟩ := wake_arrived cfg _ hwf0
     exact ⟨h1w, fun extra => by rw [h2w]; rfl⟩
 
